@@ -141,6 +141,8 @@ func Aux(kind string, sec int64, seq int, ses, pid, success string) Group {
 	case "SOCKETCALL":
 		recs = append(recs, sys("102", "wget"), Rec{Type: "SOCKETCALL", Line: hdr("SOCKETCALL", sec, seq) + "nargs=3 a0=3 a1=ffd0a0 a2=10"},
 			Rec{Type: "SOCKADDR", Line: hdr("SOCKADDR", sec, seq) + "saddr=02000035080808080000000000000000"})
+	case "OBJ_PID": // kill(2) of a daemon that belongs to no session: the target is described with oses=4294967295
+		recs = append(recs, sys("62", "kill"), Rec{Type: "OBJ_PID", Line: hdr("OBJ_PID", sec, seq) + `opid=812 oauid=4294967295 ouid=0 oses=4294967295 obj=system_u:system_r:crond_t:s0 ocomm="crond"`})
 	case "FD_PAIR":
 		recs = append(recs, sys("293", "sh"), Rec{Type: "FD_PAIR", Line: hdr("FD_PAIR", sec, seq) + "fd0=3 fd1=4"})
 	case "MMAP":
@@ -160,7 +162,7 @@ func Aux(kind string, sec int64, seq int, ses, pid, success string) Group {
 }
 
 // AuxKinds lists the auxiliary-record groups.
-var AuxKinds = []string{"SOCKADDR", "SOCKADDR6", "SOCKADDR-unix", "SOCKETCALL", "FD_PAIR", "MMAP", "CAPSET", "BPRM_FCAPS"}
+var AuxKinds = []string{"OBJ_PID", "SOCKADDR", "SOCKADDR6", "SOCKADDR-unix", "SOCKETCALL", "FD_PAIR", "MMAP", "CAPSET", "BPRM_FCAPS"}
 
 var SimpleTypes = []string{"LOGIN", "USER_START", "USER_END", "CRED_ACQ", "CRED_DISP", "USER_ACCT", "USER_AUTH", "USER_CMD", "USER_LOGIN", "CRED_REFR"}
 
@@ -201,7 +203,7 @@ func Groups(thorough bool) []Group {
 		}
 		for _, succ := range []string{"yes", "no"} {
 			for _, args := range [][]string{nil, {"ls"}, {"ls", "-l", "my file"}, {"sh", "-c", strings.Repeat("A", 257), strings.Repeat("long arg ", 300)}, manyArgs(255), manyArgs(256), manyArgs(300),
-				{"mount", "UUID=0a1b-2c3d", "/mnt"}, {"make", "ARCH=arm64", "SYSCALL=x", "defconfig"}, {"docker", "run", "-e", "PUID=1000", "-e", "PGID=1000", "msg=audit(1.1:1):", "type=EXECVE"}} {
+				{"mount", "UUID=0a1b-2c3d", "/mnt"}, {"make", "ARCH=arm64", "SYSCALL=x", "defconfig"}, {"grep", "ses=4294967295", "/var/log/audit/audit.log"}, {"docker", "run", "-e", "PUID=1000", "-e", "PGID=1000", "msg=audit(1.1:1):", "type=EXECVE"}} {
 				for _, np := range []int{0, 1, 2} {
 					for _, eoe := range []bool{false, true} {
 						if !thorough && eoe && np == 2 {
